@@ -41,6 +41,7 @@ var c14P1, c14P2 = func() (a, b [64]color.RGBA) {
 }()
 
 var c14Black = ivg.DefaultPalette
+var c14Zero [64]color.RGBA // 64 valid, fully transparent colours: switches every palette-coloured path off
 
 var c14Cols = []struct {
 	name string
@@ -56,7 +57,7 @@ var c14Cols = []struct {
 }
 
 var c14Opts = func() []c14Opt {
-	os := []c14Opt{{name: "WithPalette(P1)", full: &c14P1}, {name: "WithPalette(P2)", full: &c14P2}, {name: "WithPalette(default: all opaque black)", full: &c14Black}}
+	os := []c14Opt{{name: "WithPalette(P1)", full: &c14P1}, {name: "WithPalette(P2)", full: &c14P2}, {name: "WithPalette(default: all opaque black)", full: &c14Black}, {name: "WithPalette(zero value: all transparent)", full: &c14Zero}}
 	for _, i := range []int{0, 1, 63} {
 		for _, c := range c14Cols {
 			os = append(os, c14Opt{name: fmt.Sprintf("WithColorAt(%d,%s)", i, c.name), index: i, col: c.c})
@@ -117,6 +118,9 @@ var c14Graphics = func() [][]byte {
 		path(&e, 2) // CREG[63]
 		e.SetCSel(63)
 		path(&e, 0)
+		// CREG[1], read above for its initial content, is assigned at the end through an adjustment
+		e.SetCSel(2)
+		e.SetCReg(1, false, rgba(0x20, 0x10, 0x08, 0x40))
 		b, _ := e.Bytes()
 		out = append(out, append([]byte(nil), b...))
 	}
